@@ -182,3 +182,44 @@ def run_comment_raw(P, rep, rule="R-BLOCKBODY"):
         rep.viol(rule, "RawBlock::parse", P.where(fn), "raw body passes through %s" % transforms)
     else:
         rep.ok(rule, "RawBlock::parse", P.where(fn), "body = escape_liquid(false).to_owned(), stored unmodified")
+
+
+def run_escape_closer(P, rep, rule="R-BLOCKBODY"):
+    """escape_liquid closes the block only on an end tag WITHOUT further tokens (`{% endraw x %}` inside a raw body is text)."""
+    fns = [f for f in P.fns.values() if f.key == "<liquid_core::parser::parser::TagBlock>::escape_liquid"]
+    if len(fns) != 1:
+        rep.anchor_missing(rule, "TagBlock::escape_liquid")
+        return
+    fn = fns[0]
+    from r_fwd import field_names
+    from origins import SelfOrigins
+    names = field_names(P, fn)
+    so = SelfOrigins(P, fn)
+    ci = names.index("closed") if "closed" in names else None
+    sets = []
+    for bi, b in enumerate(fn.blocks):
+        for st in b["s"]:
+            if st[0] == "a" and st[1][1] and so.place_origin(st[1]) == (ci,) and st[2]["k"] == "use" and st[2]["o"][0] == "k" and st[2]["o"][1].get("val") == 1:
+                sets.append(bi)
+    if not sets:
+        rep.viol(rule, "escape_liquid closer", P.where(fn), "the place where the block is marked closed was not found")
+        return
+    ok = True
+    for sb in sets:
+        guarded = False
+        for cb, t in P.calls(fn):
+            f = t.get("f")
+            if f and f["name"].endswith("Option::<T>::is_none") and P.dominates(fn, cb, sb):
+                # the set must be on the true edge
+                cur = t["t"]
+                tt = fn.blocks[cur]["t"]
+                if tt["k"] == "switch":
+                    fb = [x for v, x in tt["t"] if v == 0]
+                    if fb and sb not in P.reach(fn, fb, stop={cur}):
+                        guarded = True
+        ok = ok and guarded
+    if ok:
+        rep.ok(rule, "escape_liquid closer", P.where(fn), "the block closes only on an end tag with no further tokens (next().is_none())")
+    else:
+        rep.viol(rule, "escape_liquid closer", P.where(fn),
+                 "an end-tag look-alike that carries arguments closes the block: markup-looking text inside raw would end the raw body early")
